@@ -2,7 +2,8 @@
     (1) the boolean observables of a view are instances of [visible] (the notion the theorems use);
     (2) for every chain of length <= 3 over all join patterns and verdict kinds, what the model
         predicts satisfies the property oracle (so the oracle never asks more than the model gives,
-        and the model never violates it) - by exhaustive kernel evaluation. *)
+        and the model never violates it) - by exhaustive kernel evaluation;
+    (3) the same for the event path over a space of 3100 small cases. *)
 From SioV Require Import Base.GoSem Sio.Middleware Sio.MiddlewareAdapterProofs Sio.MiddlewareAdmProofs
   Sio.MiddlewareCheck.
 
@@ -54,3 +55,43 @@ Qed.
 
 Lemma chains_upto_count : length (chains_upto 3) = 4369%nat.
 Proof. vm_compute. reflexivity. Qed.
+
+(** ** Event path *)
+
+(** the observation the event rig would record if the code behaved exactly like the model *)
+Definition eobs_of (hs : list (N * bool)) (chain : list bool) (with_ack : bool) (name : bytes)
+  (sent : list val) (dec_ok : bool) : ecase :=
+  let c0 := mkecase hs chain with_ack name sent dec_ok [] [] 0 0 false true in
+  let tr := epredict c0 in
+  mkecase hs chain with_ack name sent dec_ok (proj_mw tr) (proj_h tr) (proj_err tr)
+          (if proj_ack tr then 1 else 0)%N (proj_ack tr) true.
+
+Fixpoint all_bools (k : nat) : list (list bool) :=
+  match k with
+  | O => [[]]
+  | S k' => flat_map (fun c => [true :: c; false :: c]) (all_bools k')
+  end.
+
+Definition ev_space : list ecase :=
+  flat_map (fun hs =>
+  flat_map (fun chain =>
+  flat_map (fun with_ack =>
+  flat_map (fun sent =>
+  map (fun dec_ok => eobs_of hs chain with_ack [110; 117]%N sent dec_ok) [true; false])
+    [[]; [VStr [98]%N]; [VInt 42]; [VStr [98]%N; VInt (-7)]; [VInt 3; VStr []]])
+    [true; false])
+    (flat_map all_bools (seq 0 5)))
+    [[(0, false)]; [(0, true)]; [(0, false); (1, false)]; [(0, true); (1, false)]; []]%N.
+
+Lemma model_events_satisfy_oracle_small_b : forallb (fun c => eoracle c && eagree c) ev_space = true.
+Proof. vm_compute. reflexivity. Qed.
+
+Lemma ev_space_count : length ev_space = 3100%nat.
+Proof. vm_compute. reflexivity. Qed.
+
+Lemma model_events_satisfy_oracle_small : forall c,
+  In c ev_space -> eoracle c = true /\ eagree c = true.
+Proof.
+  intros c H. pose proof model_events_satisfy_oracle_small_b as B.
+  rewrite forallb_forall in B. apply B in H. now apply andb_true_iff in H.
+Qed.
